@@ -338,6 +338,100 @@ def build_special_tags(env, reps):
     return cw
 
 
+CLONE_PROBE = """// generated by props/c05.py: the crate's receiver context implements Clone - a copy must be in exactly the state of
+// the original (same position, same exhaustion latch) and from then on behave like it
+use hpke::{aead::{AeadCtxR, AeadCtxS, AeadTag, AesGcm128}, kdf::HkdfSha256, kem::X25519HkdfSha256, Deserializable, Serializable};
+type S = AeadCtxS<AesGcm128, HkdfSha256, X25519HkdfSha256>;
+type R = AeadCtxR<AesGcm128, HkdfSha256, X25519HkdfSha256>;
+fn attempt(r: &mut R, ct: &[u8], tag: &[u8]) -> String {
+    let mut b = ct.to_vec();
+    let t = AeadTag::<AesGcm128>::from_bytes(tag).unwrap();
+    let res = r.open_in_place_detached(&mut b, b"aad", &t);
+    format!("{:?}/{:?}", res.map(|_| b), r.verif_seq_state())
+}
+fn main() {
+    let (key, bn, es) = ([7u8; 16], [9u8; 12], [1u8; 32]);
+    for start in [0u64, 5, u64::MAX - 1] {
+        let mut s = S::verif_from_raw(&key, &bn, &es).unwrap();
+        let mut r = R::verif_from_raw(&key, &bn, &es).unwrap();
+        s.verif_set_seq(start);
+        r.verif_set_seq(start);
+        let mut msgs = Vec::new();
+        for i in 0..2u8 {
+            let mut m = vec![i; 9];
+            match s.seal_in_place_detached(&mut m, b"aad") {
+                Ok(t) => msgs.push((m, t.to_bytes().to_vec())),
+                Err(_) => break,
+            }
+        }
+        for (k, (ct, tag)) in msgs.iter().enumerate() {
+            // before message k: clone, then both see the same deliveries
+            let mut c = r.clone();
+            if c.verif_seq_state() != r.verif_seq_state() {
+                println!("CLONE_DIFFERS state start={} k={} {:?} vs {:?}", start, k, c.verif_seq_state(), r.verif_seq_state());
+            }
+            for (ct2, tag2) in msgs.iter().rev() {
+                let (a, b) = (attempt(&mut r.clone(), ct2, tag2), attempt(&mut c.clone(), ct2, tag2));
+                if a != b {
+                    println!("CLONE_DIFFERS verdict start={} k={} original={} clone={}", start, k, a, b);
+                }
+            }
+            let (a, b) = (attempt(&mut r, ct, tag), attempt(&mut c, ct, tag));
+            if a != b {
+                println!("CLONE_DIFFERS verdict start={} k={} original={} clone={}", start, k, a, b);
+            }
+        }
+        // after the last message (for start = 2^64-2 the context is now exhausted): replays on a fresh clone
+        let mut c = r.clone();
+        for (ct, tag) in msgs.iter() {
+            let (a, b) = (attempt(&mut r, ct, tag), attempt(&mut c, ct, tag));
+            if a != b {
+                println!("CLONE_DIFFERS after start={} original={} clone={}", start, a, b);
+            }
+        }
+    }
+    println!("CLONE_PROBE_DONE");
+}
+"""
+
+
+def clone_probe(env):
+    """Only if the compiled crate's surface says the receiver context is Clone (it is not at the pinned commit)."""
+    import os
+    import subprocess
+    from lib import apisurface
+    d, why = apisurface.rustdoc_json()
+    if d is None:
+        env.note("receiver-context surface not inspected: %s" % why)
+        return
+    facts = apisurface.surface(d)
+    cl_r = any(f.startswith("impl Clone for AeadCtxR") for f in facts)
+    env.extra_cov["receiver_context_is_clone"] = cl_r
+    if not cl_r:
+        return
+    cdir = os.path.join(env.work, "cloneprobe")
+    os.makedirs(os.path.join(cdir, "src"), exist_ok=True)
+    with open(os.path.join(cdir, "Cargo.toml.in"), "w") as fh:
+        fh.write('[package]\nname = "hpke-verif-probe-clone"\nversion = "0.0.0"\nedition = "2021"\npublish = false\n\n[dependencies]\n'
+                 'hpke = { path = "@REPO@", default-features = false, features = ["alloc", "x25519"] }\n\n[workspace]\n')
+    with open(os.path.join(cdir, "src", "main.rs"), "w") as fh:
+        fh.write(CLONE_PROBE)
+    fw.prepare_crate(cdir)
+    e = dict(fw.BASE_ENV)
+    e["RUSTFLAGS"] = "--cfg %s" % fw.GUARD
+    p = subprocess.run(["cargo", "run", "--offline", "--target-dir", os.path.join(fw.VERIF, "target", "probe-hooks")], cwd=cdir, env=e,
+                       stdout=subprocess.PIPE, stderr=subprocess.STDOUT, text=True, timeout=1800)
+    env.count("evaluations", 1)
+    if "CLONE_PROBE_DONE" not in p.stdout:
+        env.note("the receiver context is Clone but the clone probe did not build or finish: %s" % p.stdout[-300:])
+        return
+    bad = [l for l in p.stdout.splitlines() if l.startswith("CLONE_DIFFERS")]
+    if bad:
+        env.violation("C05:clone_differs", "a clone of a receiver context does not behave like the context it was cloned from (%d differences), e.g. %s" % (len(bad), bad[0][:300]), workload="histories")
+    else:
+        env.seen("clone-probe")
+
+
 def build_foreign(env):
     g = gen.G(env.rnd)
     cw = cl.CaseW()
@@ -374,6 +468,7 @@ def run(env):
     env.require_complete(res_f, "histories/fast")
     env.pmap(monitor, res_f.sessions, workload="histories")
     env.extra_cov["histories"] = mr.counts["histories"]
+    clone_probe(env)
     res4 = env.drive("special_tags", build_special_tags(env, env.pick(2, 12)).text())
     env.require_complete(res4, "special_tags")
     mr4 = env.pmap(monitor, res4.sessions, workload="special_tags")
